@@ -34,6 +34,19 @@ Proof.
     try discriminate; auto.
 Qed.
 
+(* exactly: a predicate is injectible iff it carries none of @OrderBy, @Limit, @Ground, @NoInject, @With
+   (an ordered or limited predicate read through its body would lose its ORDER BY / LIMIT) *)
+Theorem C08_injectible_iff_no_annotation :
+  forall a, ok_injection a = true <->
+            (truthy_optlist (order_by a) = false /\ is_none (limit_of a) = true /\ ground a = false /\
+             no_inject a = false /\ force_with a = false).
+Proof.
+  intros a. unfold ok_injection.
+  destruct (truthy_optlist (order_by a)), (is_none (limit_of a)), (ground a), (no_inject a), (force_with a); simpl;
+    split; intros H; try discriminate; try reflexivity; try (repeat split; reflexivity);
+    destruct H as [H1 [H2 [H3 [H4 H5]]]]; discriminate.
+Qed.
+
 (* ---------- (c) injection is invisible in the result ---------- *)
 Theorem C08_injection_is_invisible :
   forall (app : nat -> list val -> val) (is_x : var -> bool) (st st' : ist) (tid : nat) (cr : crule) (s1 : rs),
